@@ -20,6 +20,9 @@ pub enum Op {
     Put { k: u8, kind: u8, len: u16, seed: u8 },
     /// hand in again the value most recently handed in for k (what a replication retry does)
     PutAgain { k: u8 },
+    /// a chunk record `delta` (1..=17) bytes below the store's size limit (5 MiB): the largest values the
+    /// store admits; on disk they are 16 bytes longer than in memory
+    PutNearLimit { k: u8, delta: u8 },
     Get { k: u8 },
     List,
     Remove { k: u8 },
@@ -81,16 +84,27 @@ fn op_strategy() -> impl Strategy<Value = Op> {
 /// other kinds free to land in between through the surrounding segments.
 fn segment_strategy() -> impl Strategy<Value = Vec<Op>> {
     prop_oneof![
-        24 => op_strategy().prop_map(|o| vec![o]),
-        1 => (0u8..NKEYS as u8, 0u8..4, 1u16..64, 0u8..4, any::<bool>(), 0usize..4).prop_map(|(k, kind, len, seed, same, acks)| {
+        480 => op_strategy().prop_map(|o| vec![o]),
+        20 => (0u8..NKEYS as u8, 0u8..4, 1u16..64, 0u8..4, any::<bool>(), 0usize..4).prop_map(|(k, kind, len, seed, same, acks)| {
             let mut v = vec![Op::Block { k }, Op::Put { k, kind, len, seed }, Op::Run, Op::Run];
             v.extend(std::iter::repeat(Op::Ack { i: 0 }).take(acks + 1));
             v.push(Op::Unblock { k });
             v.push(if same { Op::PutAgain { k } } else { Op::Put { k, kind, len: len + 1, seed } });
             v
         }),
+        // a record just below the size limit, pushed out of the read cache by later puts, then read from disk
+        1 => (0u8..NKEYS as u8, prop_oneof![Just(1u8), Just(15), Just(16), Just(17), 1u8..18], 1usize..5).prop_map(|(k, delta, others)| {
+            let mut v = vec![Op::PutNearLimit { k, delta }, Op::Run, Op::Ack { i: 0 }];
+            for j in 0..others {
+                v.push(Op::Put { k: (k + 1 + j as u8) % NKEYS as u8, kind: 0, len: 9, seed: j as u8 });
+                v.push(Op::Run);
+                v.push(Op::Ack { i: 0 });
+            }
+            v.push(Op::Get { k });
+            v
+        }),
         // the same for a key that is already held and acknowledged: its update fails on disk
-        1 => (0u8..NKEYS as u8, 0u8..4, 1u16..64, 0u8..4, 0usize..3, any::<bool>()).prop_map(|(k, kind, len, seed, acks, unblock)| {
+        20 => (0u8..NKEYS as u8, 0u8..4, 1u16..64, 0u8..4, 0usize..3, any::<bool>()).prop_map(|(k, kind, len, seed, acks, unblock)| {
             let mut v = vec![Op::Put { k, kind, len, seed }, Op::Run, Op::Ack { i: 0 }, Op::Ack { i: 0 }, Op::Block { k }, Op::Put { k, kind, len: len + 1, seed }, Op::Run, Op::Run];
             v.extend(std::iter::repeat(Op::Ack { i: 0 }).take(acks + 1));
             if unblock {
@@ -168,6 +182,7 @@ pub fn check(case: &Case, ctx: &mut Ctx) {
         (false, false, false, false, false);
     let mut inflight_remove = false;
     let (mut put_again, mut fault_resolved) = (false, false);
+    let mut near_limit = false;
     // accepted puts of a key whose completion notification has not been delivered yet
     let mut unacked = vec![0i32; NKEYS];
     // the key was removed while a write of the same key was still in flight
@@ -181,8 +196,12 @@ pub fn check(case: &Case, ctx: &mut Ctx) {
 
     for (idx, op) in case.ops.iter().enumerate() {
         match op {
-            Op::Put { .. } | Op::PutAgain { .. } => {
+            Op::Put { .. } | Op::PutAgain { .. } | Op::PutNearLimit { .. } => {
                 let (ki, v) = match op {
+                    Op::PutNearLimit { k, delta } => {
+                        near_limit = true;
+                        (*k as usize % NKEYS, chunk_value_of_total_len(ant_networking::MAX_PACKET_SIZE - (*delta as usize).clamp(1, 17), 0xA11 + *k as u32))
+                    }
                     Op::Put { k, kind, len, seed } => (*k as usize % NKEYS, make_value(*kind, *len as usize, (*seed as u32) << 8 | *k as u32)),
                     Op::PutAgain { k } => {
                         let ki = *k as usize % NKEYS;
@@ -480,6 +499,7 @@ pub fn check(case: &Case, ctx: &mut Ctx) {
     ctx.label_if(fault_resolved, "write_after_resolved_fault");
     ctx.label_if(held_key_fault, "write_fault_on_held_key");
     ctx.label_if(put_again, "same_value_handed_in_again");
+    ctx.label_if(near_limit, "record_just_below_the_size_limit");
     ctx.label_if(evictions > 0, "record_pruned_at_capacity");
     ctx.label_if(refusals_at_capacity > 0, "put_refused_at_capacity");
     ctx.nontrivial_if((overwrite || remove_acked) && (ack_reordered || ack_delayed));
